@@ -23,13 +23,47 @@ def generate(ctx, sizes, quick):
 
 
 def run_driver(ctx, replays, kv="memory", tag="", which="both"):
+    """Runs cmd/c05 over the replays. A death of the driver inside perkeep code (panic / fatal error) is an
+    observation: it is reported as a discrepancy and the remaining replays are run by a fresh process."""
+    import re
     drv = ctx.build("c05")
-    rf = ctx.path("replays%s.jsonl" % tag)
-    vlib.write_jsonl(rf, replays)
     o5, o6 = ctx.path("c05%s.ndjson" % tag), ctx.path("c06%s.ndjson" % tag)
-    ctx.run([drv, "-replays", rf, "-out05", o5, "-out06", o6, "-kv", kv,
-             "-do05=%s" % ("true" if which in ("both", "05") else "false"), "-do06=%s" % ("true" if which in ("both", "06") else "false"),
-             "-secring", os.path.join(vlib.REPO, "pkg/jsonsign/testdata/test-secring.gpg")], timeout=2400)
+    for f in (o5, o6):
+        open(f, "w").close()
+    start, part = 0, 0
+    while start < len(replays):
+        part += 1
+        rf = ctx.path("replays%s_%d.jsonl" % (tag, part))
+        vlib.write_jsonl(rf, replays[start:])
+        p5, p6 = ctx.path("p5%s_%d.ndjson" % (tag, part)), ctx.path("p6%s_%d.ndjson" % (tag, part))
+        rc, so, se = ctx.run([drv, "-replays", rf, "-out05", p5, "-out06", p6, "-kv", kv,
+                              "-do05=%s" % ("true" if which in ("both", "05") else "false"), "-do06=%s" % ("true" if which in ("both", "06") else "false"),
+                              "-secring", os.path.join(vlib.REPO, "pkg/jsonsign/testdata/test-secring.gpg")], timeout=2400, ok_codes=None)
+        done = 0
+        for src, dst in ((p5, o5), (p6, o6)):
+            if os.path.exists(src):
+                lines = open(src).read().splitlines()
+                # keep complete replays only (a dying driver may leave a partial last one)
+                idxs = [i for i, ln in enumerate(lines) if '"ev":"reset"' in ln]
+                if rc != 0 and idxs:
+                    lines = lines[:idxs[-1]]
+                    idxs = idxs[:-1]
+                done = max(done, len(idxs))
+                with open(dst, "a") as f:
+                    f.write("".join(ln + "\n" for ln in lines))
+        if rc == 0:
+            break
+        pm = re.search(r"^(panic|fatal error): (.*)", se, re.M)
+        fr = re.search(r"(perkeep\.org/\S+?)\(", se[pm.end():]) if pm else None
+        if not pm or not fr:
+            raise vlib.MachineryError("c05 driver failed rc=%s: %s" % (rc, se[-2000:]))
+        bad = replays[start + done] if start + done < len(replays) else None
+        ctx.discrepancy("%s/driver/%s@%s" % (ctx.prop, "fatal" if pm.group(1) == "fatal error" else "panic", fr.group(1)),
+                        "the process died inside perkeep while replaying %s: %s: %s" % (json.dumps(bad), pm.group(1), pm.group(2)[:200]),
+                        {"property": ctx.prop, "replay_input": bad, "stderr": se[pm.start():pm.start() + 3000]})
+        start += done + 1
+        if part > 50:
+            raise vlib.MachineryError("c05 driver died more than 50 times")
     return o5, o6
 
 
